@@ -31,11 +31,18 @@ where
     /// Tries to optimize a given path using modified Lin-Kernighan-Helsgaun algorithm.
     /// Returns discovered solutions in the order of their improvement.
     pub fn optimize(mut self, path: Path) -> Vec<Path> {
+        // NOTE: rounding noise can make the accumulated gain positive for tours of equal length. To avoid replacing
+        // such tours by each other forever, keep all discovered paths (see `is_known_path`) and limit amount of
+        // improvements (normally, it stays below 3 * path.len()) to stop long walks across tours of equal length.
+        let max_improvements = 10 * path.len();
         self.solutions.push(path);
 
         while let Some(improved_path) = self.solutions.last().and_then(|p| self.improve(p.iter().copied())) {
-            self.solutions.clear();
             self.solutions.push(improved_path);
+
+            if self.solutions.len() > max_improvements {
+                break;
+            }
         }
 
         self.solutions
